@@ -167,8 +167,10 @@ def check(report, tier, only_cases=None):
         "correspondence_differences": len(diffs), "oracle_failure_classes": {k: v["count"] for k, v in summ["classes"].items()},
         "trusted_base": coqbuild.TRUSTED_BASE, "exhaustive": False,
     })
-    report.assumptions.append("the theorem is about the size words, path choice and exceptions of the model; that the elements themselves are exchanged "
-                              "without loss or duplication is decided on the implementation by the identity ledger of the cross-type driver")
+    report.assumptions.append("C13_swap2 is about the size words, path choice and exceptions of the model; the exchange of the elements is proved at slot level for "
+                              "the element-wise path (C13_elements_*: Swap2Elems.swap2_elems = growth of either side + swap_deep, tied to the code through "
+                              "the slot correspondence of swap_deep / relocation and the allocator requests compared here); for the buffer-exchange path "
+                              "and over whole histories it is decided on the implementation by the identity ledger of the cross-type driver")
     report.level = "proof"
 
 
